@@ -131,7 +131,12 @@ def kw_parameters_to_string(params):
     items = []
     for key, value in params.items():
         if not isinstance(key, Identifier):
-            key = Identifier(key)
+            # the parser joins the parts of the name with dots
+            parts = key.split('.')
+            if not all(parts):
+                # a dot at an end or two in a row: they belong to one quoted name
+                parts = [key]
+            key = Identifier(parts=parts)
         # keywords are common here (model, engine, database): quote only what can not be read back bare
         key_str = '.'.join([name_to_string(part) if isinstance(part, str) else str(part) for part in key.parts])
         items.append(f'{key_str}={kw_value_to_string(value)}')
